@@ -8,31 +8,31 @@ From Coq Require Import Lia.
 Definition gw_fires_at (c : gw_config) (h1 : list gw_row) (r : gw_row) (h2 : list gw_row) : Prop :=
   exists res, nth_error (gw_run0 c (h1 ++ r :: h2)) (length h1) = Some (Some res).
 
-Theorem gw_fires_iff_sql3_partial : forall c h1 r h2,
+Theorem gw_fires_iff_sql3_partial : forall c, gw_bind_ok c -> forall h1 r h2,
   (forall a, In a (gw_calls (gc_pred c)) -> gw_agg_of a (gw_since0 c (gw_key r) h1 ++ [r]) <> None) ->
   (gw_fires_at c h1 r h2 <-> gw_holds3 (gc_pred c) (gw_since0 c (gw_key r) h1 ++ [r]) = true).
 Proof.
-  intros c h1 r h2 H. unfold gw_fires_at. rewrite gw_fires_iff.
+  intros c Hok h1 r h2 H. unfold gw_fires_at. rewrite (gw_fires_iff c Hok).
   rewrite (gw_holds_holds3_nonnull _ _ H). reflexivity.
 Qed.
 
 (* ... in particular when the firing row itself carries a value for every referenced field *)
-Theorem gw_fires_iff_sql3_row_values : forall c h1 r h2,
+Theorem gw_fires_iff_sql3_row_values : forall c, gw_bind_ok c -> forall h1 r h2,
   (forall a, In a (gw_calls (gc_pred c)) -> gw_input a r <> None) ->
   (gw_fires_at c h1 r h2 <-> gw_holds3 (gc_pred c) (gw_since0 c (gw_key r) h1 ++ [r]) = true).
 Proof.
-  intros c h1 r h2 H. apply gw_fires_iff_sql3_partial. intros a Ha.
+  intros c Hok h1 r h2 H. apply (gw_fires_iff_sql3_partial c Hok). intros a Ha.
   apply (gw_agg_not_null a _ r).
   - apply in_or_app. right. left. reflexivity.
   - apply H. exact Ha.
 Qed.
 
 (* ... and for predicates over counts only *)
-Theorem gw_fires_iff_sql3_counts : forall c h1 r h2,
+Theorem gw_fires_iff_sql3_counts : forall c, gw_bind_ok c -> forall h1 r h2,
   (forall a, In a (gw_calls (gc_pred c)) -> gr_fn a = GwCount) ->
   (gw_fires_at c h1 r h2 <-> gw_holds3 (gc_pred c) (gw_since0 c (gw_key r) h1 ++ [r]) = true).
 Proof.
-  intros c h1 r h2 H. apply gw_fires_iff_sql3_partial. intros [f l] Ha.
+  intros c Hok h1 r h2 H. apply (gw_fires_iff_sql3_partial c Hok). intros [f l] Ha.
   pose proof (H _ Ha) as Hf. simpl in Hf. subst f. apply gw_count_not_null.
 Qed.
 
@@ -45,10 +45,12 @@ Definition gw_w_min : gw_ref := {| gr_fn := GwMin; gr_fld := Some 0%nat |}.
 Definition gw_w_cfg_or : gw_config :=
   {| gc_outs := [gw_w_count];
      gc_pred := GPOr (GPAtom gw_w_max CmpGt 50) (GPAtom gw_w_count CmpGe 3);
-     gc_bind := [false; true] |}.
+     gc_bind := [None; Some 0%nat] |}.
 (* min(v) != 5 *)
 Definition gw_w_cfg_ne : gw_config :=
-  {| gc_outs := [gw_w_count; gw_w_min]; gc_pred := GPAtom gw_w_min CmpNe 5; gc_bind := [true] |}.
+  {| gc_outs := [gw_w_count; gw_w_min]; gc_pred := GPAtom gw_w_min CmpNe 5; gc_bind := [Some 1%nat] |}.
+Lemma gw_w_cfg_or_ok : gw_bind_ok gw_w_cfg_or. Proof. reflexivity. Qed.
+Lemma gw_w_cfg_ne_ok : gw_bind_ok gw_w_cfg_ne. Proof. reflexivity. Qed.
 
 (* the third NULL row: count = 3, the predicate is (unknown OR true) = true, nothing is produced *)
 Lemma gw_sql3_missed_fire :
@@ -63,21 +65,21 @@ Lemma gw_sql3_spurious_fire :
 Proof. split; vm_compute; reflexivity. Qed.
 
 Theorem gw_fires_iff_sql3_refuted :
-  ~ (forall c h1 r h2,
+  ~ (forall c, gw_bind_ok c -> forall h1 r h2,
        gw_fires_at c h1 r h2 <-> gw_holds3 (gc_pred c) (gw_since0 c (gw_key r) h1 ++ [r]) = true).
 Proof.
   intro H. destruct gw_sql3_missed_fire as [H3 Hn].
-  destruct (H gw_w_cfg_or [gw_w_null_row; gw_w_null_row] gw_w_null_row []) as [_ Hb].
+  destruct (H gw_w_cfg_or gw_w_cfg_or_ok [gw_w_null_row; gw_w_null_row] gw_w_null_row []) as [_ Hb].
   destruct (Hb H3) as [res Hres]. simpl length in Hres. rewrite Hn in Hres. discriminate.
 Qed.
 
 Theorem gw_no_result_while_false_sql3_refuted :
-  ~ (forall c h1 r h2,
+  ~ (forall c, gw_bind_ok c -> forall h1 r h2,
        gw_holds3 (gc_pred c) (gw_since0 c (gw_key r) h1 ++ [r]) = false ->
        nth_error (gw_run0 c (h1 ++ r :: h2)) (length h1) = Some None).
 Proof.
   intro H. destruct gw_sql3_spurious_fire as [H3 Hn].
-  pose proof (H gw_w_cfg_ne [] gw_w_null_row [] H3) as Hb. simpl length in Hb.
+  pose proof (H gw_w_cfg_ne gw_w_cfg_ne_ok [] gw_w_null_row [] H3) as Hb. simpl length in Hb.
   rewrite Hn in Hb. discriminate.
 Qed.
 
@@ -283,8 +285,14 @@ Proof.
 Qed.
 
 (* the model's own output passes the checker (engine reading) on every input *)
-Theorem gw_model_passes_checker : forall c h, chk_C17_engine c h (map gw_olist (gw_run0 c h)) = None.
-Proof. intros. unfold chk_C17_engine. rewrite gw_run0_spec. apply gw_chk_from_spec. Qed.
+Theorem gw_model_passes_checker : forall c, gw_bind_ok c ->
+  forall h, chk_C17_engine c h (map gw_olist (gw_run0 c h)) = None.
+Proof. intros c Hok h. unfold chk_C17_engine. rewrite (gw_run0_spec c Hok). apply gw_chk_from_spec. Qed.
+
+(* for every binding, the model's output passes the checker of the predicate as bound *)
+Theorem gw_model_passes_checker_as_bound : forall c h,
+  chk_C17_engine (gw_eff c) h (map gw_olist (gw_run0 c h)) = None.
+Proof. intros c h. unfold chk_C17_engine. rewrite gw_run0_spec_eff. apply gw_chk_from_spec. Qed.
 
 (* conversely: outputs that pass the checker are the model's outputs, row by row, up to the tolerance *)
 Definition gw_same (o : list gw_res) (m : option gw_res) : Prop :=
@@ -319,6 +327,63 @@ Proof.
       * apply IH. rewrite E2. reflexivity.
 Qed.
 
-Theorem gw_checker_complete : forall c h obs,
+Theorem gw_checker_complete : forall c, gw_bind_ok c -> forall h obs,
   chk_C17_engine c h obs = None -> Forall2 gw_same obs (gw_run0 c h).
-Proof. intros c h obs H. rewrite gw_run0_spec. apply gw_chk_from_complete. exact H. Qed.
+Proof. intros c Hok h obs H. rewrite (gw_run0_spec c Hok). apply gw_chk_from_complete. exact H. Qed.
+
+(* ------------------------------------------------------------------ any binding *)
+(* For EVERY binding the window fires exactly when the predicate AS BOUND holds ... *)
+Theorem gw_fires_iff_as_bound : forall c h1 r h2,
+  (exists res, nth_error (gw_run0 c (h1 ++ r :: h2)) (length h1) = Some (Some res)) <->
+  gw_holds (gw_eff_pred c) (gw_since0 c (gw_key r) h1 ++ [r]) = true.
+Proof.
+  intros c h1 r h2. rewrite (gw_run0_as_bound c (h1 ++ r :: h2)). rewrite <- gw_since0_as_bound.
+  apply (gw_fires_iff (gw_eff c) (gw_eff_bind_ok c)).
+Qed.
+
+Theorem gw_result_exact_as_bound : forall c h1 r h2 res,
+  nth_error (gw_run0 c (h1 ++ r :: h2)) (length h1) = Some (Some res) ->
+  res = (gw_key r, map (fun a => gw_agg_of a (gw_since0 c (gw_key r) h1 ++ [r])) (gc_outs c)).
+Proof.
+  intros c h1 r h2 res H. rewrite (gw_run0_as_bound c (h1 ++ r :: h2)) in H. rewrite <- gw_since0_as_bound.
+  apply (gw_result_exact (gw_eff c) (gw_eff_bind_ok c) h1 r h2 res H).
+Qed.
+
+Theorem gw_restart_empty_as_bound : forall c h1 r h2 res,
+  nth_error (gw_run0 c (h1 ++ r :: h2)) (length h1) = Some (Some res) ->
+  gw_since0 c (gw_key r) (h1 ++ [r]) = [] /\
+  gw_project (gw_key r) (combine h2 (skipn (S (length h1)) (gw_run0 c (h1 ++ r :: h2)))) =
+  gw_run0 c (filter (gw_is_group (gw_key r)) h2).
+Proof.
+  intros c h1 r h2 res H. rewrite <- gw_since0_as_bound.
+  rewrite (gw_run0_as_bound c (h1 ++ r :: h2)) in *.
+  rewrite (gw_run0_as_bound c (filter (gw_is_group (gw_key r)) h2)).
+  apply (gw_restart_empty (gw_eff c) (gw_eff_bind_ok c) h1 r h2 res H).
+Qed.
+
+(* ... which is the predicate as written only for a faithful binding. Witness: columns 0 and 1 (say temp and
+   Temp), SELECT count( * ), max(col0); TRIGGER WHEN max(col1) > 5 bound to the SELECT's max(col0), as
+   findOutputSpec does when the two names differ in letter case only. Row (col0 = 9, col1 = 1):
+   max(col1) = 1, the predicate is false, yet a result is produced. *)
+Definition gw_w_twin_cfg : gw_config :=
+  {| gc_outs := [gw_w_count; gw_w_max];
+     gc_pred := GPAtom {| gr_fn := GwMax; gr_fld := Some 1%nat |} CmpGt 5;
+     gc_bind := [Some 1%nat] |}.
+Definition gw_w_twin_row : gw_row := {| gw_key := [1%N]; gw_vals := [Some 9; Some 1] |}.
+
+Lemma gw_twin_spurious_fire :
+  gw_holds (gc_pred gw_w_twin_cfg) (gw_since0 gw_w_twin_cfg [1%N] [] ++ [gw_w_twin_row]) = false /\
+  nth_error (gw_run0 gw_w_twin_cfg ([] ++ gw_w_twin_row :: [])) 0 = Some (Some ([1%N], [Some 1; Some 9])).
+Proof. split; vm_compute; reflexivity. Qed.
+
+Theorem gw_fires_iff_any_binding_refuted :
+  ~ (forall c h1 r h2,
+       (exists res, nth_error (gw_run0 c (h1 ++ r :: h2)) (length h1) = Some (Some res)) <->
+       gw_holds (gc_pred c) (gw_since0 c (gw_key r) h1 ++ [r]) = true).
+Proof.
+  intro H. destruct gw_twin_spurious_fire as [Hf Hn].
+  destruct (H gw_w_twin_cfg [] gw_w_twin_row []) as [Ha _].
+  assert (Ht : gw_holds (gc_pred gw_w_twin_cfg) (gw_since0 gw_w_twin_cfg (gw_key gw_w_twin_row) [] ++ [gw_w_twin_row]) = true).
+  { apply Ha. eexists. simpl length. exact Hn. }
+  change (gw_key gw_w_twin_row) with [1%N] in Ht. rewrite Hf in Ht. discriminate.
+Qed.
